@@ -673,8 +673,10 @@ def _native_tables(tier="quick", seed=0):
                 tbl = gf.table
                 if sum(col.width for col in tbl.columns) != 1000 * C + 1 or sum(row.height for row in tbl.rows) != 700 * R + 2:
                     bad = bad or ("sums", "%dx%d: widths/heights do not sum to the request" % (R, C))
+                variants = ["t%d%d", "\v", "a%d\vb%d", "", "x%d\ny%d", "t%d%d"]  # also cells whose only content is a line break, empty cells, two paragraphs
                 for r, cc in cells:
-                    tbl.cell(r, cc).text = "t%d%d" % (r, cc)
+                    tv = variants[(r * 3 + cc + evals) % len(variants)]
+                    tbl.cell(r, cc).text = tv % (r, cc) if "%d" in tv else tv
                 regions = []
                 for op, a, b in seq:
                     snapshot = [(tbl.cell(r, cc)._tc.gridSpan, tbl.cell(r, cc)._tc.rowSpan, tbl.cell(r, cc)._tc.hMerge, tbl.cell(r, cc)._tc.vMerge, tbl.cell(r, cc).text) for r, cc in cells]
